@@ -340,9 +340,9 @@ fn run_axis(c: &ACase, lx: &mut Local) {
                             lx.check(same(v1, fv[j], bv.abs().max(1e-9)) && same(sd1, fsd[j], 1e-6), "C18/weighted-var-axis-vs-lane", || format!("special weights {:?} (fill {}): weighted_var_axis / weighted_std_axis(ddof {}) lane {} = {:e} / {:e} but the lane routines give {:e} / {:e}: {:?}", wf, c.fill, ddof, j, fv[j], fsd[j], v1, sd1, c));
                             continue;
                         }
-                        lx.check((s1 - fs[j]).abs() <= bs, "C18/weighted-sum-axis-vs-lane", || format!("weighted_sum_axis lane {} = {:e} but weighted_sum of the lane = {:e}: {:?}", j, fs[j], s1, c));
-                        lx.check((m1 - fm[j]).abs() <= bm, "C18/weighted-mean-axis-vs-lane", || format!("weighted_mean_axis lane {} = {:e} but weighted_mean of the lane = {:e}: {:?}", j, fm[j], m1, c));
-                        lx.check((v1 - fv[j]).abs() <= bv, "C18/weighted-var-axis-vs-lane", || format!("weighted_var_axis(ddof {}) lane {} = {:e} but weighted_var of the lane = {:e} (tolerance {:e}): {:?}", ddof, j, fv[j], v1, bv, c));
+                        lx.within((s1 - fs[j]).abs(), bs, "C18/weighted-sum-axis-vs-lane", || format!("weighted_sum_axis lane {} = {:e} but weighted_sum of the lane = {:e}: {:?}", j, fs[j], s1, c));
+                        lx.within((m1 - fm[j]).abs(), bm, "C18/weighted-mean-axis-vs-lane", || format!("weighted_mean_axis lane {} = {:e} but weighted_mean of the lane = {:e}: {:?}", j, fm[j], m1, c));
+                        lx.within((v1 - fv[j]).abs(), bv, "C18/weighted-var-axis-vs-lane", || format!("weighted_var_axis(ddof {}) lane {} = {:e} but weighted_var of the lane = {:e} (tolerance {:e}): {:?}", ddof, j, fv[j], v1, bv, c));
                         let bsd = if v1 > 0.0 { bv / v1.sqrt() + 4.0 * u * v1.sqrt() } else { bv.sqrt() };
                         lx.check((sd1 - fsd[j]).abs() <= bsd || (sd1.is_nan() && fsd[j].is_nan()), "C18/weighted-std-axis-vs-lane", || format!("weighted_std_axis(ddof {}) lane {} = {:e} but weighted_std of the lane = {:e}: {:?}", ddof, j, fsd[j], sd1, c));
                         let bit_equal = s1.to_bits() == fs[j].to_bits() && m1.to_bits() == fm[j].to_bits() && v1.to_bits() == fv[j].to_bits() && sd1.to_bits() == fsd[j].to_bits();
